@@ -43,7 +43,7 @@ theorem data_encoding_roundtrip (hI : IntRoundTrip) (hV : FValRoundTrip) (u : Op
     loadDataEncoding u x = .ok enc := by
   rw [loadDataEncoding_of_split u x A B enc encEl hw hd hA hB]
   cases enc with
-  | str se => exact string_encoding_roundtrip hI u se hwf encEl hw
+  | str se => exact string_encoding_roundtrip hI hV u se hwf encEl hw
   | bin be => exact binary_encoding_roundtrip hI hV u be hwf encEl hw
   | num ne =>
     by_cases hfl : ne.isFloat = true
